@@ -110,6 +110,12 @@ def findCommentEnd (s : List Char) : Option Nat :=
       some s.length
     else none
 
+/-- A line of a block comment that starts with neither `*`, `//` nor `/*` (comment.rs:323-328). -/
+def isBareLine (raw : List Char) : Bool :=
+  let trimmedLine := trimStart (stripLineEnding raw)
+  !startsWith ['*'] trimmedLine && !startsWith "//".toList trimmedLine &&
+    !startsWith "/*".toList trimmedLine
+
 /-- The loop over the lines of a block comment in `identify_comment`: the group is the first block
 comment up to the end of the line it ends on.  `offset` is `closing_symbol_offset`.  Returns
 (has bare lines, consumed raw lines). -/
@@ -117,9 +123,7 @@ def blockGroup (firstCommentEnd : Nat) : List (List Char) → Nat → Bool → B
   | [], _, hbl => (hbl, [])
   | raw :: rest, offset, hbl =>
     let offset := offset + raw.length
-    let trimmedLine := trimStart (stripLineEnding raw)
-    let hbl := if !startsWith ['*'] trimmedLine && !startsWith "//".toList trimmedLine &&
-        !startsWith "/*".toList trimmedLine then true else hbl
+    let hbl := hbl || isBareLine raw
     if offset ≥ firstCommentEnd then (hbl, [raw])
     else
       let (h, got) := blockGroup firstCommentEnd rest offset hbl
@@ -140,6 +144,16 @@ def lightLine (l : List Char) : List Char :=
 def lightRewriteComment (orig : List Char) (nl : List Char) : List Char :=
   nl.intercalate ((rustLines orig).map lightLine)
 
+/-- The first group of a comment, comment.rs:304-345: (has bare lines, the raw lines of the group). -/
+def firstGroupOf (orig : List Char) : Bool × List (List Char) :=
+  let style := commentStyle orig
+  let raws := splitInclusiveGo [] orig
+  match style with
+  | .doubleSlash | .tripleSlash | .doc =>
+    consumeSameLineComments style (trimStart style.lineStart) raws
+  | .custom opener => consumeSameLineComments style (trimEnd opener) raws
+  | _ => blockGroup ((findCommentEnd orig).getD orig.length) raws 0 false
+
 /-- `identify_comment` (comment.rs:252-395) under `normalize_comments = false`, `wrap_comments = false`,
 `is_doc_comment = false`.  `indentStr` is `shape.indent.to_string(config)`.  `none` = outside the model
 (a block comment with bare lines, which goes through `trim_left_preserve_layout`). -/
@@ -147,14 +161,7 @@ def identifyCommentLight (indentStr : List Char) : Nat → List Char → Option 
   | 0, _ => none
   | fuel + 1, orig =>
     let style := commentStyle orig
-    let raws := splitInclusiveGo [] orig
-    let (hasBareLines, group) :=
-      match style with
-      | .doubleSlash | .tripleSlash | .doc =>
-        consumeSameLineComments style (trimStart style.lineStart) raws
-      | .custom opener => consumeSameLineComments style (trimEnd opener) raws
-      | _ =>
-        blockGroup ((findCommentEnd orig).getD orig.length) raws 0 false
+    let (hasBareLines, group) := firstGroupOf orig
     let firstGroup := group.flatten
     let rest := orig.drop firstGroup.length
     if hasBareLines && style.isBlockComment then none
